@@ -24,6 +24,7 @@ type exprContext struct {
 	root             store.Cursor
 	result           Result
 	contextPosition  int
+	contextSize      int
 	principal        principalNodeType
 	builtinFunctions map[XmlName]Function
 	ContextSettings
@@ -47,6 +48,7 @@ func (e *exprContext) copy() exprContext {
 		root:             e.root,
 		result:           e.result,
 		contextPosition:  e.contextPosition,
+		contextSize:      e.contextSize,
 		principal:        e.principal,
 		builtinFunctions: builtinFunctions,
 		ContextSettings:  e.ContextSettings,
